@@ -21,10 +21,20 @@ type gsxVals struct {
 }
 
 // gsxLit: the value of an integer literal by Go's literal grammar
-// (decimal, or octal with a leading 0); ok=false for texts outside it.
+// (decimal, octal with a leading 0, or hexadecimal 0x..); ok=false for texts outside it.
 func gsxLit(s string) (v int, ok bool) {
-	if !gsxrt.Matches(`^(0|[1-9][0-9]{0,2}|0[0-7]{1,2})$`, s) {
+	if !gsxrt.Matches(`^(0|[1-9][0-9]{0,2}|0[0-7]{1,2}|0x[0-9a-f])$`, s) {
 		return 0, false
+	}
+	if len(s) > 2 && s[1] == 'x' {
+		for i := 2; i < len(s); i++ {
+			d := int(s[i] - '0')
+			if s[i] >= 'a' {
+				d = int(s[i]-'a') + 10
+			}
+			v = v*16 + d
+		}
+		return v, true
 	}
 	base := 10
 	if len(s) > 1 && s[0] == '0' {
